@@ -1,45 +1,20 @@
 #!/bin/sh
 # Must-fail / must-pass selftest of the verifier. Every patch in selftest/mutants
-# (a property-breaking change that compiles and passes the pinned tests) is applied
+# (a deliberate property-breaking change, among them the reverts of all "fix:" commits) is applied
 # to a scratch worktree of /repo and the property's quick check must exit 1 with a
-# VIOLATION line; every patch in selftest/benign must keep exit 0.
+# VIOLATION line; every patch in selftest/benign must keep exit 0. Four patches run at a time.
 # usage: selftest/run.sh [pattern]
-export GOFLAGS=-mod=mod GOPROXY=off
 cd /verif
-[ -x bin/govc ] || (cd govc && go build -o /verif/bin/govc .) || exit 2
-W=$(mktemp -d /tmp/verif-selftest.XXXXXX)
-O=$(mktemp -d /tmp/verif-selftest-out.XXXXXX)
-trap 'git -C /repo worktree remove --force "$W/repo" >/dev/null 2>&1; rm -rf "$W" "$O"' EXIT
-git -C /repo worktree add --detach "$W/repo" HEAD >/dev/null 2>&1 || { echo "cannot create worktree"; exit 2; }
-# uncommitted contract files of /repo are part of the tree under test
-(cd /repo && git ls-files -m -o --exclude-standard | grep contracts_verif.go | while read f; do mkdir -p "$W/repo/$(dirname $f)"; cp "$f" "$W/repo/$f"; done)
-fail=0; n=0
+[ -x bin/govc ] || (cd govc && GOFLAGS=-mod=mod GOPROXY=off go build -o /verif/bin/govc .) || exit 2
+L=$(mktemp /tmp/verif-selftest-list.XXXXXX)
+trap 'rm -f "$L" "$L.out"' EXIT
 for kind in mutants benign; do
-  for p in selftest/$kind/*${1}*.patch; do
-    [ -f "$p" ] || continue
-    prop=$(basename "$p" | cut -d- -f1)
-    n=$((n+1))
-    (cd "$W/repo" && git apply "/verif/$p") || { echo "SELFTEST-ERROR $p does not apply"; fail=1; continue; }
-    if [ "$prop" = ALL ]; then
-      # a benign patch spanning packages: every property whose packages it touches
-      dirs=$(grep '^+++ b/' "$p" | sed 's|^+++ b/||' | xargs -n1 dirname | sort -u | tr '\n' ' ')
-      props=$(python3 -c "
-import json,sys
-dirs=set(sys.argv[1].split()); p=json.load(open('/verif/props.json'))
-print(' '.join(k for k,v in p.items() if any(('./'+d) in v['packages'] for d in dirs)))" "$dirs")
-      rc=0; : > "$O/log"
-      for pr in $props; do GOVC_REPO="$W/repo" GOVC_OUT="$O" bin/govc check -prop "$pr" -tier quick >> "$O/log" 2>&1 || rc=1; done
-    else
-    GOVC_REPO="$W/repo" GOVC_OUT="$O" bin/govc check -prop "$prop" -tier quick > "$O/log" 2>&1; rc=$?
-    fi
-    hit=$(grep -c '^VIOLATION' "$O/log")
-    if [ $kind = mutants ]; then
-      if [ $rc -eq 1 ] && [ "$hit" -gt 0 ]; then echo "ok   caught  $p  ($(grep '^  obligation' "$O/log" | head -1 | cut -c1-110))"; else echo "MISS        $p (exit $rc)"; fail=1; tail -3 "$O/log"; fi
-    else
-      if [ $rc -eq 0 ]; then echo "ok   quiet   $p"; else echo "FALSE-ALARM $p (exit $rc)"; fail=1; grep '^  obligation\|^VIOLATION\|TOOL' "$O/log" | head -5; fi
-    fi
-    (cd "$W/repo" && git checkout -q -- . && git clean -fdq -e contracts_verif.go)
-  done
-done
+  for p in selftest/$kind/*${1}*.patch; do [ -f "$p" ] && echo "$kind $p"; done
+done > "$L"
+n=$(wc -l < "$L")
+xargs -P 4 -L 1 selftest/one.sh < "$L" | tee "$L.out"
+fail=0
+grep -q "^MISS\|^FALSE-ALARM\|^SELFTEST-ERROR" "$L.out" && fail=1
+[ "$(grep -c '^ok ' "$L.out")" -eq "$n" ] || fail=1
 echo "selftest: $n patches, fail=$fail"
 exit $fail
